@@ -63,6 +63,17 @@ def free_positions(trace, roles=("leaf",)):
     return pos
 
 
+def is_full_range(t):
+    d = L()["types"][t]
+    return (len(d["valid"]) == 1 and d["valid"][0]["k"] == "range"
+            and d["valid"][0]["hi"] - d["valid"][0]["lo"] == 2 ** (8 * d["width"]))
+
+
+def free_unconstrained(trace):
+    """byte positions of leaves whose type admits every value of its width (buffers, plain integers, attribute words)"""
+    return free_positions([x for x in trace if x[4] == "leaf" and is_full_range(x[1])])
+
+
 def S(prop, pid, key, n, budget=40, cfg=None, ppt=20):
     c = {"type": key}
     c.update(cfg or {})
